@@ -19,11 +19,19 @@ import (
 
 // Dirs. Nothing a registered command needs lives under /tmp.
 const (
-	VerifDir    = "/verif"
-	EvidenceDir = "/verif/evidence"
-	ReplayDir   = "/verif/replays"
-	RunDir      = "/verif/.run"
+	VerifDir  = "/verif"
+	ReplayDir = "/verif/replays"
+	RunDir    = "/verif/.run"
 )
+
+// EvidenceDir is /verif/evidence; VERIF_EVIDENCE_DIR redirects it (used when the checks are run against a
+// deliberately broken tree, so that committed evidence always describes the unchanged tree).
+var EvidenceDir = func() string {
+	if d := os.Getenv("VERIF_EVIDENCE_DIR"); d != "" {
+		return d
+	}
+	return "/verif/evidence"
+}()
 
 // Tier is quick or thorough.
 type Tier string
